@@ -3,6 +3,7 @@ package overloader
 
 import (
 	"fmt"
+	"math"
 	"sync"
 	"sync/atomic"
 	"time"
@@ -142,18 +143,19 @@ func (o *Overloader) Update(newLimitConfig LimitConfig) {
 }
 
 func (o *Overloader) updateConnLimiter(limitConfig *LimitConfig) {
-	o.limitConfigLock.Lock()
-	if limitConfig.MaxConn <= 0 {
-		o.connLimiter = nil
-		o.limitConfigLock.Unlock()
-		return
+	// the limiter keeps counting the live sessions while the limit is switched off
+	// (MaxConn<=0), so that switching it on again does not forget them
+	maxConn := limitConfig.MaxConn
+	if maxConn <= 0 {
+		maxConn = math.MaxInt32
 	}
+	o.connLimiterLock.Lock()
 	if o.connLimiter == nil {
-		o.connLimiter = newConnLimiter(limitConfig.MaxConn)
-	} else if o.limitConfig.MaxConn != limitConfig.MaxConn {
-		o.connLimiter.update(limitConfig.MaxConn)
+		o.connLimiter = newConnLimiter(maxConn)
+	} else {
+		o.connLimiter.update(maxConn)
 	}
-	o.limitConfigLock.Unlock()
+	o.connLimiterLock.Unlock()
 }
 
 func (o *Overloader) updateTotalQPSLimiter(limitConfig *LimitConfig) {
